@@ -996,7 +996,14 @@ class TorConfig:
             sent = self.unsaved
             self.__dict__['unsaved'] = {}
             self._saves_in_flight.append(sent)
-            d = self.protocol.set_conf(*args)
+            try:
+                d = self.protocol.set_conf(*args)
+            except Exception:
+                # nothing was sent (e.g. a value the ASCII control
+                # connection cannot carry), so it is all still pending
+                self._saves_in_flight[:] = [x for x in self._saves_in_flight if x is not sent]
+                self.__dict__['unsaved'] = sent
+                raise
             d.addCallbacks(self._save_completed, self._save_failed,
                            callbackArgs=(sent,), errbackArgs=(sent,))
             return d
